@@ -17,10 +17,11 @@ EXPLANATION = (
     "arbitrary expression such as a lambda-bound parameter; (COPY-STRUCTURE) instantiation rebuilds every constraint and "
     "type constructor unchanged and remaps every type-graph edge into the copy."
     ' (OPERAND-PAIR) a binary-operator constraint is stored on both operand nodes, so refining either one re-checks it; (FIELD-SETS) unifying two blob types compares their field sets in both directions.'
+    ' (ASSIGNABILITY) an index assignment is only accepted if the runtime can perform it for some type the checker admits there;'
     ' (DEFER-RECORDED, RET-FOLD, RET-ORIGIN, BINDER-TYPED, TYPE-NAME) as in C03; (VALUE-PATH) a missing branch value / a body that falls off its end / a quotient whose dividend is refined later are not silently compatible with everything (four known findings).'
 )
 UNDECIDED = ("soundness of unification with deferred constraints as a theorem; run-time behaviour of `external` code; "
-             "assignment through a tuple index is accepted by can_assign but rejected by the runtime (reported as information).")
+             "nothing else about the runtime library.")
 
 MANIFEST = dict(
     text=EXPLANATION + " Not decided: " + UNDECIDED,
@@ -47,8 +48,12 @@ def run(F, rep, tier):
     contradiction_info(F, rep)
 
 
-def copy_discipline(F, rep):
+def copy_discipline(F, rep, only_declaration=False):
     n = 0
+    real = rep
+    if only_declaration:
+        import core
+        rep = core.Report("_", "quick")
     for fn in F.fns_in(TCM):
         body = fn_body(fn)
         fl = None
@@ -76,6 +81,16 @@ def copy_discipline(F, rep):
                        "copy() of the type of variable `%s`: %s" % (origin, "a blob/enum declaration referenced as a type (generalisable)"
                                                                      if ok else "not known to be a let-generalisable binder"),
                        line_of(c))
+                # ... and the position only *names* a variable: nothing in the syntax makes it a declaration (a
+                # capitalised parameter or local shadows the declaration), so the arm has to establish that it is one
+                how = _is_declaration_established(F, fl, c, parents, ref)
+                rep.ob("COPY", key + "|is-a-declaration", how is not None,
+                       "the instantiated variable `%s` is shown to be a blob/enum declaration: %s" % (ref, how) if how else
+                       "`%s` is instantiated like a declaration, but the arm never establishes that the variable *is* one: a "
+                       "capitalised parameter or local with that name is looked up like any variable, its type is still "
+                       "Unknown, so whatever is demanded of the copy (a variant, fields) is deferred for ever: "
+                       "`f :: fn Color do c :: Color.Purple 1 end` builds a variant no enum declares" % ref,
+                       line_of(c))
             else:
                 # dead code is tolerated: copying a field type when the *outer* value is a function can never happen
                 dead = fname == "expression" and ctxname.startswith("BlobAccess")
@@ -85,7 +100,69 @@ def copy_discipline(F, rep):
                         "lambda parameter is instantiated afresh at every use, so `f: fn *A -> *A` can be called at two "
                         "different types and any function passed for it is accepted" % d),
                        line_of(c))
+    if only_declaration:
+        for o in rep.obs:
+            if o["key"].endswith("|is-a-declaration"):
+                real.obs.append(o)
+                real.sites += 1
+        return
     rep.floor("COPY", "copy() call sites", n, 5)
+
+
+def _declaration_sets(F):
+    """fields of TypeChecker that the Blob *and* Enum arms of outer_statement insert into"""
+    fos = F.fn(TC + "outer_statement")
+    filled = {}
+    for v in ("Blob", "Enum"):
+        for arm, alt in tc.arm_of(F, fos, NR + "Statement", v):
+            for c in nodes(arm["body"], "MethodCall"):
+                r = peel(c["recv"])
+                if c["m"] == "insert" and r.get("k") == "Field" and ty_is((r.get("base_ty") or "").replace("&mut ", "").replace("&", ""), TCM + "TypeChecker"):
+                    filled.setdefault(r["name"], set()).add(v)
+    return {f for f, vs in filled.items() if vs == {"Blob", "Enum"}}
+
+
+def _is_declaration_established(F, fl, copy_call, parents, ref):
+    from flow import uncond_nodes
+    arm = None
+    for p in parents:
+        if p.get("k") is None and "pat" in p and "body" in p:
+            arm = p
+    scope = arm["body"] if arm is not None else fn_body(fl.fn) if hasattr(fl, "fn") else None
+    if scope is None:
+        return None
+    decl_sets = _declaration_sets(F)
+    # (a) `if !self.<declarations>.contains(X) { return Err }` unconditionally in the arm
+    for n in uncond_nodes(scope):
+        if n.get("k") == "If" and tc.is_err_value(n["t"]):
+            c = peel(n["c"])
+            if c.get("k") == "Unary" and c.get("op") == "Not":
+                m = peel(c["e"])
+                if m.get("k") == "MethodCall" and m["m"] in ("contains", "contains_key") and peel(m["recv"]).get("name") in decl_sets \
+                        and tc.root_field(fl, m["args"][0]) == ref:
+                    return "membership in %s is tested first" % peel(m["recv"]).get("name")
+    # (b) the copy is matched on its type and everything that is not a declared type is an error (a quiet Unknown arm is
+    #     the USERTYPE obligation of C03)
+    res_hid = None
+    for hid, o in fl.origin.items():
+        if o["kind"] == "let" and o["src"] is not None and peel(o["src"]) is copy_call and o["path"] == ():
+            res_hid = hid
+    for m in nodes(scope, "Match"):
+        sc = peel(m["scrut"])
+        if sc.get("k") == "MethodCall" and callee(sc) == TC + "find_type" and res_hid is not None and tc.local_hid(sc["args"][0]) == res_hid:
+            bad = []
+            catch = False
+            for a in m["arms"]:
+                for alt in pat_alternatives(a["pat"]):
+                    v = pat_variant(alt)
+                    name = last(v) if v else "_"
+                    if name == "_":
+                        catch = True
+                    if name not in ("Blob", "ExternBlob", "Enum", "Unknown") and not tc.is_err_value(a["body"]):
+                        bad.append(name)
+            if catch and not bad:
+                return "the copy is matched on its type; anything but a blob / enum is an error"
+    return None
 
 
 def copy_structure(F, rep):
@@ -101,14 +178,17 @@ def copy_structure(F, rep):
 
 
 def contradiction_info(F, rep):
-    """can_assign admits Index targets, constant_index only types tuples, the runtime's __ASSIGN_INDEX rejects
-    tuples: t[0] = 5 is accepted and fails at run time.  Cross-language fact, reported as information."""
-    lua = F.read("sylt-compiler/src/preamble.lua")
-    i = lua.find("__ASSIGN_INDEX = function")
-    seg = lua[i:i + 600] if i >= 0 else ""
-    if '"tuple"' in seg and "Cannot assign to tuple" in seg:
-        rep.info("contradiction: TypeChecker::can_assign accepts Expression::Index targets, constant_index types only tuples, "
-                 "and preamble.lua's __ASSIGN_INDEX asserts on tuples: `t[0] = 5` is accepted and fails at run time")
+    """can_assign / constant_index / __ASSIGN_INDEX must agree: an accepted index assignment has to be able to succeed"""
+    import c04
+    fca = F.fn(TC + "can_assign")
+    rep.analysed(fca)
+    accepted = set()
+    for m in matches_on(fn_body(fca), E):
+        for a, alt, vp in arm_alternatives(m):
+            if not tc.is_err_value(peel(a["body"])):
+                accepted.add(last(vp) if vp else "_")
+        break
+    c04.index_targets_writable(F, rep, "Index" in accepted or "_" in accepted)
 
 
 def value_paths(F, rep):
